@@ -108,7 +108,7 @@ fn groups(id: &str, thorough: bool) -> Vec<Group> {
                     "spi=2" => c.max_spi = 2,
                     _ => {}
                 }
-                g.push(Group { cfg: c, expand: { let mut v = adds(&[0, 1], &[0, 1], &[0, 1], &[1]); v.extend(basic_reads()); v }, probe: reads(&[false], &[-1], &[1], &[0], &[0], &[0, 1]), depth: d(6, 8), split: 4 });
+                g.push(Group { cfg: c, expand: { let mut v = adds(&[0, 1], &[0, 1], &[0, 1], &[1]); v.extend(basic_reads()); v }, probe: reads(&[false], &[-1], &[1], &[0], &[0], &[0, 1]), depth: d(7, 8), split: 4 });
             }
         }
         "C19" => {
@@ -118,7 +118,7 @@ fn groups(id: &str, thorough: bool) -> Vec<Group> {
                 c.max_instances = mi;
                 c.max_spi = mspi;
                 c.depth = depth;
-                g.push(Group { cfg: c, expand: { let mut v = adds(&[0], &[0, 1, 2], &[0, 1, 2], &[1]); v.extend(basic_reads()); v }, probe: vec![], depth: d(6, 8), split: 3 });
+                g.push(Group { cfg: c, expand: { let mut v = adds(&[0], &[0, 1, 2], &[0, 1, 2], &[1]); v.extend(basic_reads()); v }, probe: vec![], depth: d(7, 9), split: 3 });
             }
         }
         "C20" => {
@@ -129,7 +129,7 @@ fn groups(id: &str, thorough: bool) -> Vec<Group> {
                 expand.extend(reads(&[false, true], &[-1, 1], &[0, 1], &[0], &[0], &[ANY]));
                 expand.extend(reads(&[true], &[-1], &[0], &[0], &[0], &[0]));
                 let probe = reads(&[false, true], &[-1, 1, 2, 0], &[0, 1, 2], &[0, 1, 2], &[0, 1, 2, 3], &[ANY, 0, 1, 2]);
-                g.push(Group { cfg: c, expand, probe, depth: d(5, 6), split: 16 });
+                g.push(Group { cfg: c, expand, probe, depth: d(5, 7), split: 16 });
             }
         }
         "C21" => {
@@ -140,7 +140,7 @@ fn groups(id: &str, thorough: bool) -> Vec<Group> {
                 let mut expand = adds(&ws, &[0, 1], &[0], &[1, 2, 3]);
                 expand.extend(adds(&ws[..1], &[0], &[1], &[2]));
                 expand.extend(reads(&[true], &[1], &[0], &[0], &[0], &[ANY]));
-                g.push(Group { cfg: c, expand, probe: reads(&[false], &[-1], &[0], &[0], &[0], &[ANY, 0, 1]), depth: d(6, 7), split: 6 });
+                g.push(Group { cfg: c, expand, probe: reads(&[false], &[-1], &[0], &[0], &[0], &[ANY, 0, 1]), depth: d(6, 8), split: 6 });
             }
             let mut c = cfg("C21[by-reception]");
             c.by_source = false;
@@ -154,7 +154,7 @@ fn groups(id: &str, thorough: bool) -> Vec<Group> {
                 expand.extend(reads(&[false, true], &[-1], &[0], &[0], &[0], &[ANY]));
                 expand.extend(reads(&[true], &[-1], &[0], &[0], &[0], &[0]));
                 let probe = reads(&[false], &[-1], &[0, 1], &[0, 1, 2], &[0, 1, 2], &[ANY, 0]);
-                g.push(Group { cfg: c, expand, probe, depth: d(5, 6), split: 16 });
+                g.push(Group { cfg: c, expand, probe, depth: d(5, 7), split: 16 });
             }
         }
         "C23" => {
@@ -164,7 +164,7 @@ fn groups(id: &str, thorough: bool) -> Vec<Group> {
             expand.extend(reads(&[false, true], &[-1], &[0], &[0], &[0], &[0, 1, 2]));
             expand.extend(nexts(&[true], &[-1], &[0], &[0], &[0], &[ANY, 0]));
             let probe = nexts(&[false, true], &[-1, 1], &[0, 1, 2], &[0, 1, 2], &[0, 1, 2], &[ANY, 0, 1, 2, 3]);
-            g.push(Group { cfg: c, expand, probe, depth: d(5, 7), split: 16 });
+            g.push(Group { cfg: c, expand, probe, depth: d(6, 8), split: 16 });
         }
         "C24" => {
             for (name, strengths, excl) in [("1<2", vec![1, 2], true), ("tie", vec![2, 2], true), ("1<2<=2", vec![1, 2, 2], true), ("shared", vec![1, 2], false)] {
@@ -186,7 +186,7 @@ fn groups(id: &str, thorough: bool) -> Vec<Group> {
                 expand.extend(adds(&[0], &[1], &[0], &[1, 3]));
                 expand.extend(adds(&[0], &[0], &[1], &[3]));
                 expand.extend(reads(&[true], &[-1, 1], &[0], &[0], &[0], &[ANY]));
-                g.push(Group { cfg: c, expand, probe: reads(&[false], &[-1], &[0], &[0], &[0], &[ANY]), depth: d(5, 6), split: 8 });
+                g.push(Group { cfg: c, expand, probe: reads(&[false], &[-1], &[0], &[0], &[0], &[ANY]), depth: d(5, 7), split: 8 });
             }
         }
         _ => {}
